@@ -178,6 +178,10 @@ class Projector:
                 mentioned.add(e["f"])
             if e["ev"] == "Deps":
                 mentioned.update(e["stores"])
+            if e["ev"] == "Merge":
+                # a path the run reports under another spelling (through a symlinked directory, say) is a file of its own
+                mentioned.update(e["changesets"])
+                mentioned.update(e["failures"])
         ordered = sorted(mentioned, key=sort_key)
         for i, rel in enumerate(ordered):
             self.ftok[rel] = f"f{i}"
